@@ -15,7 +15,8 @@ def shape_key(E, what):
 
 def candidates(rng, sz, start=1):
     cands = SC.dictionary(start)
-    nxt = start + len(cands)
+    assert len(cands) < 400
+    nxt = start + 400          # the ids of the enumerated and sampled definitions do not depend on how long the dictionary has grown
     ex = SC.exhaustive_small(nxt, rng, sz["exh"])
     cands += ex
     nxt += len(ex)
